@@ -1,7 +1,622 @@
 package main
 
-import "verif/harness/hlib"
+import (
+	"fmt"
+	"math"
+	"math/big"
+	"sort"
+	"strings"
 
-func runExact(c *hlib.Ctx, n int) {}
-func runBits(c *hlib.Ctx, n int)  {}
-func runBall(c *hlib.Ctx, n int)  {}
+	"github.com/unixpickle/model3d/model2d"
+	"github.com/unixpickle/model3d/model3d"
+	"verif/harness/hlib"
+)
+
+// ---------------------------------------------------------------- formatting of runs
+
+type fmtF func(float64) string
+
+func hitStr(f fmtF, t float64, n [3]float64, dim int) string {
+	parts := []string{f(t)}
+	for i := 0; i < dim; i++ {
+		parts = append(parts, f(n[i]))
+	}
+	return strings.Join(parts, " ")
+}
+
+// runStr: "n0 n1 T hit ... F (0 | 1 hit)" in callback order.
+func runStr(f fmtF, o obs, dim int) string {
+	if o.failure != "" {
+		return "failure:" + o.failure
+	}
+	var hits []string
+	for i, t := range o.ts {
+		hits = append(hits, "T "+hitStr(f, t, o.ns[i], dim))
+	}
+	first := "F 0"
+	if o.ok {
+		first = "F 1 " + hitStr(f, o.first, o.firstN, dim)
+	}
+	return fmt.Sprintf("%d %d %s %s", o.n0, o.n1, strings.Join(hits, " "), first)
+}
+
+// runStrSorted: callbacks in canonical order (t, normal), first collision by parameter only.
+func runStrSorted(f fmtF, o obs, dim int) string {
+	if o.failure != "" {
+		return "failure:" + o.failure
+	}
+	idx := make([]int, len(o.ts))
+	for i := range idx {
+		idx[i] = i
+	}
+	sort.SliceStable(idx, func(a, b int) bool {
+		i, j := idx[a], idx[b]
+		if o.ts[i] != o.ts[j] {
+			return o.ts[i] < o.ts[j]
+		}
+		for k := 0; k < 3; k++ {
+			if o.ns[i][k] != o.ns[j][k] {
+				return o.ns[i][k] < o.ns[j][k]
+			}
+		}
+		return false
+	})
+	var hits []string
+	for _, i := range idx {
+		hits = append(hits, "T "+hitStr(f, o.ts[i], o.ns[i], dim))
+	}
+	first := "F 0"
+	if o.ok {
+		first = "F 1 " + f(o.first)
+	}
+	return fmt.Sprintf("%d %d %s %s", o.n0, o.n1, strings.Join(hits, " "), first)
+}
+
+// ---------------------------------------------------------------- exact-mode generators
+
+func pow2(c *hlib.Ctx, lo, hi int) float64 {
+	return math.Ldexp(1, lo+c.Rng.Intn(hi-lo+1))
+}
+
+func spow2(c *hlib.Ctx, lo, hi int) float64 {
+	v := pow2(c, lo, hi)
+	if c.Rng.Intn(2) == 0 {
+		return -v
+	}
+	return v
+}
+
+func dy(c *hlib.Ctx) float64 { return c.Dyadic(4, 3) }
+
+func dy3(c *hlib.Ctx) v3 { return model3d.XYZ(dy(c), dy(c), dy(c)) }
+func dy2(c *hlib.Ctx) v2 { return model2d.XY(dy(c), dy(c)) }
+
+// pdir3: direction with components 0 or ±2^k, not all zero — deliberately not unit, not axis-aligned.
+func pdir3(c *hlib.Ctx) v3 {
+	for {
+		var a [3]float64
+		for i := range a {
+			if c.Rng.Intn(4) != 0 {
+				a[i] = spow2(c, -2, 3)
+			}
+		}
+		if a != [3]float64{} {
+			return model3d.NewCoord3DArray(a)
+		}
+	}
+}
+
+func pdir2(c *hlib.Ctx) v2 {
+	for {
+		d := model2d.XY(0, 0)
+		if c.Rng.Intn(4) != 0 {
+			d.X = spow2(c, -2, 3)
+		}
+		if c.Rng.Intn(4) != 0 {
+			d.Y = spow2(c, -2, 3)
+		}
+		if d.X != 0 || d.Y != 0 {
+			return d
+		}
+	}
+}
+
+// axis-aligned right triangle with power-of-two legs
+func ptri(c *hlib.Ctx) *model3d.Triangle {
+	a := dy3(c)
+	i := c.Rng.Intn(3)
+	j := (i + 1 + c.Rng.Intn(2)) % 3
+	var e1, e2 [3]float64
+	e1[i] = spow2(c, -1, 2)
+	e2[j] = spow2(c, -1, 2)
+	return &model3d.Triangle{a, a.Add(model3d.NewCoord3DArray(e1)), a.Add(model3d.NewCoord3DArray(e2))}
+}
+
+func triTokens(f fmtF, t *model3d.Triangle) string {
+	var parts []string
+	for _, p := range t {
+		parts = append(parts, f(p.X), f(p.Y), f(p.Z))
+	}
+	return strings.Join(parts, " ")
+}
+
+func v3Tok(f fmtF, p v3) string { return f(p.X) + " " + f(p.Y) + " " + f(p.Z) }
+func v2Tok(f fmtF, p v2) string { return f(p.X) + " " + f(p.Y) }
+
+func triBary(f fmtF, t *model3d.Triangle, r *model3d.Ray) string {
+	ok, b1, b2, s := model3d.VerifTriangleRayCollision(t, r)
+	if !ok {
+		return "B 0"
+	}
+	return fmt.Sprintf("B 1 %s %s %s", f(b1), f(b2), f(s))
+}
+
+// aimAt: an origin from which direction d (scaled by a dyadic) reaches the dyadic point p
+func originToward(c *hlib.Ctx, p, d v3) v3 {
+	k := float64(c.Rng.Intn(8)-1) / 2 // -1/2 .. 3 in halves: also starts beyond / on the target
+	return p.Sub(d.Scale(k))
+}
+
+func runExact(c *hlib.Ctx, n int) {
+	// --- Rect
+	for i := 0; i < n; i++ {
+		lo := dy3(c)
+		hi := lo.Add(model3d.XYZ(pow2(c, -2, 2)*float64(1+c.Rng.Intn(3)), pow2(c, -2, 2)*float64(1+c.Rng.Intn(3)), pow2(c, -2, 2)*float64(1+c.Rng.Intn(3))))
+		rect := model3d.NewRect(lo, hi)
+		d := pdir3(c)
+		var o v3
+		switch c.Rng.Intn(4) {
+		case 0:
+			o = dy3(c)
+		case 1: // inside
+			o = lo.Mid(hi)
+		case 2: // on a face / corner
+			o = lo
+			if c.Rng.Intn(2) == 0 {
+				o = model3d.XYZ(lo.X, lo.Mid(hi).Y, hi.Z)
+			}
+		default:
+			tgt := model3d.XYZ(lo.X+(hi.X-lo.X)*float64(c.Rng.Intn(5))/4, lo.Y+(hi.Y-lo.Y)*float64(c.Rng.Intn(5))/4, lo.Z+(hi.Z-lo.Z)*float64(c.Rng.Intn(5))/4)
+			o = originToward(c, tgt, d)
+		}
+		r := &model3d.Ray{Origin: o, Direction: d}
+		ob := observe3(rect, r)
+		c.Stat(fmt.Sprintf("rectx.hits.%d", ob.n1), 1)
+		c.Emit(fmt.Sprintf("c07 rectx %s %s %s %s", v3Tok(rs, lo), v3Tok(rs, hi), v3Tok(rs, o), v3Tok(rs, d)), runStr(rs, ob, 3))
+	}
+	// --- Triangle
+	for i := 0; i < n; i++ {
+		t := ptri(c)
+		d := pdir3(c)
+		var o v3
+		if c.Rng.Intn(3) == 0 {
+			o = dy3(c)
+		} else {
+			// aim at a dyadic point of the triangle's plane, inside, on an edge/vertex or outside
+			u, v := float64(c.Rng.Intn(5)-1)/4, float64(c.Rng.Intn(5)-1)/4
+			if c.Rng.Intn(2) == 0 {
+				u, v = float64(1+c.Rng.Intn(3))/8, float64(1+c.Rng.Intn(3))/8 // strictly inside
+			}
+			tgt := t[0].Add(t[1].Sub(t[0]).Scale(u)).Add(t[2].Sub(t[0]).Scale(v))
+			o = originToward(c, tgt, d)
+		}
+		r := &model3d.Ray{Origin: o, Direction: d}
+		ob := observe3(t, r)
+		c.Stat(fmt.Sprintf("trix.hits.%d", ob.n1), 1)
+		c.Emit(fmt.Sprintf("c07 trix %s %s %s", triTokens(rs, t), v3Tok(rs, o), v3Tok(rs, d)), runStr(rs, ob, 3)+" "+triBary(rs, t, r))
+	}
+	// --- 2-D Segment
+	for i := 0; i < n; i++ {
+		a := dy2(c)
+		var b v2
+		if c.Rng.Intn(2) == 0 {
+			b = a.Add(model2d.X(spow2(c, -1, 2)))
+		} else {
+			b = a.Add(model2d.Y(spow2(c, -1, 2)))
+		}
+		s := &model2d.Segment{a, b}
+		d := pdir2(c)
+		var o v2
+		if c.Rng.Intn(3) == 0 {
+			o = dy2(c)
+		} else {
+			tgt := a.Add(b.Sub(a).Scale(float64(c.Rng.Intn(7)-1) / 4))
+			o = tgt.Sub(d.Scale(float64(c.Rng.Intn(9)-2) / 2))
+		}
+		r := &model2d.Ray{Origin: o, Direction: d}
+		ob := observe2(s, r)
+		c.Stat(fmt.Sprintf("seg2x.hits.%d", ob.n1), 1)
+		c.Emit(fmt.Sprintf("c07 seg2x %s %s %s %s", v2Tok(rs, a), v2Tok(rs, b), v2Tok(rs, o), v2Tok(rs, d)), runStr(rs, ob, 2))
+	}
+	// --- triangle soups through the real mesh colliders
+	for i := 0; i < n; i++ {
+		var tris []*model3d.Triangle
+		kindName := ""
+		if c.Rng.Intn(2) == 0 {
+			// a closed box mesh with power-of-two sides
+			lo := dy3(c)
+			hi := lo.Add(model3d.XYZ(pow2(c, -1, 2), pow2(c, -1, 2), pow2(c, -1, 2)))
+			tris = model3d.NewMeshRect(lo, hi).TriangleSlice()
+			kindName = "boxmesh"
+		} else {
+			k := c.Rng.Intn(7)
+			for j := 0; j < k; j++ {
+				tris = append(tris, ptri(c))
+			}
+			kindName = "random"
+		}
+		// only soups of the exact family (axis-aligned right triangles with power-of-two legs)
+		okFam := true
+		for _, t := range tris {
+			e1, e2 := t[1].Sub(t[0]), t[2].Sub(t[0])
+			if !axisPow2(e1) || !axisPow2(e2) {
+				okFam = false
+			}
+		}
+		if !okFam {
+			// NewMeshRect triangulates faces with a diagonal: legs are t[0]->t[1], t[0]->t[2] only for
+			// some vertex orders; rotate the triangle so that the right angle comes first.
+			for _, t := range tris {
+				for rot := 0; rot < 3; rot++ {
+					e1, e2 := t[1].Sub(t[0]), t[2].Sub(t[0])
+					if axisPow2(e1) && axisPow2(e2) {
+						break
+					}
+					*t = model3d.Triangle{t[1], t[2], t[0]}
+				}
+			}
+		}
+		var col model3d.Collider
+		switch c.Rng.Intn(3) {
+		case 0:
+			col = model3d.MeshToCollider(model3d.NewMeshTriangles(tris))
+		case 1:
+			col = model3d.GroupedTrianglesToCollider(append([]*model3d.Triangle{}, tris...))
+		default:
+			if len(tris) > 0 {
+				col = model3d.BVHToCollider(model3d.NewBVHAreaDensity(append([]*model3d.Triangle{}, tris...)))
+			} else {
+				col = model3d.GroupedTrianglesToCollider(nil)
+			}
+		}
+		d := pdir3(c)
+		o := dy3(c)
+		if len(tris) > 0 && c.Rng.Intn(3) != 0 {
+			t := tris[c.Rng.Intn(len(tris))]
+			u, v := float64(1+c.Rng.Intn(2))/4, float64(1+c.Rng.Intn(2))/8
+			tgt := t[0].Add(t[1].Sub(t[0]).Scale(u)).Add(t[2].Sub(t[0]).Scale(v))
+			o = originToward(c, tgt, d)
+		}
+		r := &model3d.Ray{Origin: o, Direction: d}
+		ob := observe3(col, r)
+		c.Stat("joinx."+kindName, 1)
+		c.Stat(fmt.Sprintf("joinx.hits.%d", minInt(ob.n1, 5)), 1)
+		var sb strings.Builder
+		fmt.Fprintf(&sb, "c07 joinx %d", len(tris))
+		// Mesh iteration order is a map order: the op line lists the triangles canonically sorted
+		keys := make([]string, len(tris))
+		for j, t := range tris {
+			keys[j] = triTokens(rs, t)
+		}
+		sort.Strings(keys)
+		for _, k := range keys {
+			sb.WriteString(" " + k)
+		}
+		fmt.Fprintf(&sb, " %s %s", v3Tok(rs, o), v3Tok(rs, d))
+		c.Emit(sb.String(), runStrSorted(rs, ob, 3))
+	}
+	// --- profile collider over axis-aligned 2-D outlines
+	for i := 0; i < n; i++ {
+		lo := dy2(c)
+		hi := lo.Add(model2d.XY(pow2(c, -1, 2), pow2(c, -1, 2)))
+		m2 := model2d.NewMeshRect(lo, hi)
+		if c.Rng.Intn(3) == 0 {
+			lo2 := model2d.XY(hi.X+pow2(c, -1, 1), lo.Y)
+			m2.AddMesh(model2d.NewMeshRect(lo2, lo2.Add(model2d.XY(pow2(c, -1, 1), pow2(c, -1, 1)))))
+		}
+		segs := m2.SegmentsSlice()
+		minZ := dy(c)
+		maxZ := minZ + pow2(c, -1, 2)
+		col := model3d.ProfileCollider(model2d.MeshToCollider(m2), minZ, maxZ)
+		d := pdir3(c)
+		var o v3
+		mid := lo.Mid(hi)
+		switch c.Rng.Intn(4) {
+		case 0:
+			o = dy3(c)
+		case 1:
+			o = model3d.XYZ(mid.X, mid.Y, (minZ+maxZ)/2) // inside
+		case 2:
+			// vertical ray above/below the outline (inside or outside the 2-D shape); offset from the
+			// dyadic grid so that the fixed containment direction meets no vertex
+			d = model3d.Z(spow2(c, -2, 3))
+			o = model3d.XYZ(mid.X+float64(c.Rng.Intn(5)-2)*(hi.X-lo.X)/3, mid.Y, minZ-float64(c.Rng.Intn(5)-1))
+		default:
+			tgt := model3d.XYZ(lo.X+(hi.X-lo.X)*float64(c.Rng.Intn(5))/4, lo.Y+(hi.Y-lo.Y)*float64(c.Rng.Intn(5))/4, minZ+(maxZ-minZ)*float64(c.Rng.Intn(5))/4)
+			o = originToward(c, tgt, d)
+		}
+		r := &model3d.Ray{Origin: o, Direction: d}
+		ob := observe3(col, r)
+		class := "general"
+		if d.X == 0 && d.Y == 0 {
+			class = "vertical"
+		} else if d.Z == 0 {
+			class = "flat"
+		}
+		c.Stat("profx."+class, 1)
+		c.Stat(fmt.Sprintf("profx.hits.%d", minInt(ob.n1, 5)), 1)
+		keys := make([]string, len(segs))
+		for j, s := range segs {
+			keys[j] = v2Tok(rs, s[0]) + " " + v2Tok(rs, s[1])
+		}
+		sort.Strings(keys)
+		c.Emit(fmt.Sprintf("c07 profx %d %s %s %s %s %s", len(segs), strings.Join(keys, " "), rs(minZ), rs(maxZ), v3Tok(rs, o), v3Tok(rs, d)),
+			runStrSorted(rs, ob, 3))
+	}
+}
+
+func axisPow2(e v3) bool {
+	nz := 0
+	for _, x := range e.Array() {
+		if x != 0 {
+			nz++
+			fr, _ := math.Frexp(math.Abs(x))
+			if fr != 0.5 {
+				return false
+			}
+		}
+	}
+	return nz == 1
+}
+
+// ---------------------------------------------------------------- bits-mode generators
+
+func rnd(c *hlib.Ctx) float64 { return c.Rng.NormFloat64() * 2 }
+
+func rnd3(c *hlib.Ctx) v3 { return model3d.XYZ(rnd(c), rnd(c), rnd(c)) }
+func rnd2(c *hlib.Ctx) v2 { return model2d.XY(rnd(c), rnd(c)) }
+
+// bdir3: random non-unit direction, sometimes with zero components
+func bdir3(c *hlib.Ctx) v3 {
+	for {
+		d := rnd3(c).Scale(nonUnitScale(c))
+		switch c.Rng.Intn(6) {
+		case 0:
+			d.X = 0
+		case 1:
+			d.Y, d.Z = 0, 0
+		}
+		if d.Norm() > 1e-6 {
+			return d
+		}
+	}
+}
+
+func bray3(c *hlib.Ctx, min, max v3) *model3d.Ray {
+	o := randIn3(c, min, max, 1.0)
+	if c.Rng.Intn(3) == 0 {
+		o = randIn3(c, min, max, 0)
+	}
+	d := bdir3(c)
+	if c.Rng.Intn(2) == 0 {
+		d = randIn3(c, min, max, 0).Sub(o).Scale(nonUnitScale(c))
+		if d.Norm() < 1e-9 {
+			d = bdir3(c)
+		}
+	}
+	return &model3d.Ray{Origin: o, Direction: d}
+}
+
+func runBits(c *hlib.Ctx, n int) {
+	// --- Sphere (3-D) and Circle (2-D, same template: run through the model on z = 0)
+	for i := 0; i < n; i++ {
+		if c.Rng.Intn(3) != 0 {
+			s := &model3d.Sphere{Center: rnd3(c), Radius: randPos(c, 0.2, 3)}
+			r := bray3(c, s.Min(), s.Max())
+			ob := observe3(s, r)
+			c.Stat(fmt.Sprintf("sphereb.hits.%d", ob.n1), 1)
+			c.Emit(fmt.Sprintf("c07 sphereb %s %s %s %s", v3Tok(hx, s.Center), hx(s.Radius), v3Tok(hx, r.Origin), v3Tok(hx, r.Direction)), runStr(hx, ob, 3))
+		} else {
+			s := &model2d.Circle{Center: rnd2(c), Radius: randPos(c, 0.2, 3)}
+			o := randIn2(c, s.Min(), s.Max(), 1.0)
+			d := randIn2(c, s.Min(), s.Max(), 0).Sub(o).Scale(nonUnitScale(c))
+			if d.Norm() < 1e-9 {
+				d = model2d.XY(1, 2)
+			}
+			r := &model2d.Ray{Origin: o, Direction: d}
+			ob := observe2(s, r)
+			c.Stat(fmt.Sprintf("circle2b.hits.%d", ob.n1), 1)
+			z := hx(0)
+			c.Emit(fmt.Sprintf("c07 sphereb %s %s %s %s %s %s %s", v2Tok(hx, s.Center), z, hx(s.Radius), v2Tok(hx, o), z, v2Tok(hx, d), z), runStr(hx, ob, 3))
+		}
+	}
+	// --- Rect on arbitrary doubles
+	for i := 0; i < n/2; i++ {
+		lo := rnd3(c)
+		hi := lo.Add(model3d.XYZ(randPos(c, 0.1, 3), randPos(c, 0.1, 3), randPos(c, 0.1, 3)))
+		rect := model3d.NewRect(lo, hi)
+		r := bray3(c, lo, hi)
+		ob := observe3(rect, r)
+		c.Stat(fmt.Sprintf("rectb.hits.%d", ob.n1), 1)
+		c.Emit(fmt.Sprintf("c07 rectb %s %s %s %s", v3Tok(hx, lo), v3Tok(hx, hi), v3Tok(hx, r.Origin), v3Tok(hx, r.Direction)), runStr(hx, ob, 3))
+	}
+	// --- Triangle on arbitrary doubles
+	for i := 0; i < n; i++ {
+		t := &model3d.Triangle{rnd3(c), rnd3(c), rnd3(c)}
+		if t.Area() < 1e-3 {
+			continue
+		}
+		r := bray3(c, t.Min(), t.Max())
+		switch c.Rng.Intn(8) {
+		case 0:
+			// (nearly) parallel to the plane
+			r.Direction = t[1].Sub(t[0]).Scale(rnd(c)).Add(t[2].Sub(t[0]).Scale(rnd(c)))
+			if r.Direction.Norm() < 1e-9 {
+				r.Direction = t[1].Sub(t[0])
+			}
+		case 1:
+			// through a vertex / along an edge direction
+			r.Direction = t[c.Rng.Intn(3)].Sub(r.Origin)
+		}
+		ob := observe3(t, r)
+		c.Stat(fmt.Sprintf("trib.hits.%d", ob.n1), 1)
+		c.Emit(fmt.Sprintf("c07 trib %s %s %s", triTokens(hx, t), v3Tok(hx, r.Origin), v3Tok(hx, r.Direction)), runStr(hx, ob, 3)+" "+triBary(hx, t, r))
+	}
+	// --- 2-D Segment on arbitrary doubles
+	for i := 0; i < n; i++ {
+		s := &model2d.Segment{rnd2(c), rnd2(c)}
+		if s.Length() < 1e-3 {
+			continue
+		}
+		o := randIn2(c, s.Min(), s.Max().AddScalar(0.1), 1.0)
+		d := s[0].Add(s[1].Sub(s[0]).Scale(c.Rng.Float64()*1.4 - 0.2)).Sub(o).Scale(nonUnitScale(c))
+		if c.Rng.Intn(8) == 0 {
+			d = s[1].Sub(s[0]).Scale(rnd(c)) // parallel
+		}
+		if d.Norm() < 1e-9 {
+			d = model2d.XY(1, -3)
+		}
+		r := &model2d.Ray{Origin: o, Direction: d}
+		ob := observe2(s, r)
+		c.Stat(fmt.Sprintf("seg2b.hits.%d", ob.n1), 1)
+		c.Emit(fmt.Sprintf("c07 seg2b %s %s %s %s", v2Tok(hx, s[0]), v2Tok(hx, s[1]), v2Tok(hx, o), v2Tok(hx, d)), runStr(hx, ob, 2))
+	}
+	// --- castPlane / castCircle
+	for i := 0; i < n; i++ {
+		nrm := rnd3(c)
+		if c.Rng.Intn(2) == 0 {
+			nrm = randUnit3(c)
+		}
+		if nrm.Norm() < 1e-6 {
+			continue
+		}
+		ctr := rnd3(c)
+		r := bray3(c, ctr.AddScalar(-1), ctr.AddScalar(1))
+		if c.Rng.Intn(8) == 0 {
+			a, _ := nrm.OrthoBasis()
+			r.Direction = a.Scale(rnd(c)) // parallel to the plane
+			if r.Direction.Norm() < 1e-9 {
+				r.Direction = a
+			}
+		}
+		if c.Rng.Intn(2) == 0 {
+			bias := rnd(c)
+			rc, ok := model3d.VerifCastPlane(nrm, bias, r)
+			out := "0"
+			if ok {
+				out = "1 " + hx(rc.Scale)
+			}
+			c.Stat("planeb."+out[:1], 1)
+			c.Emit(fmt.Sprintf("c07 planeb %s %s %s %s", v3Tok(hx, nrm), hx(bias), v3Tok(hx, r.Origin), v3Tok(hx, r.Direction)), out)
+		} else {
+			rad := randPos(c, 0.2, 3)
+			rc, ok := model3d.VerifCastCircle(nrm, ctr, rad, r)
+			out := "0"
+			if ok {
+				out = "1 " + hitStr(hx, rc.Scale, rc.Normal.Array(), 3)
+			}
+			c.Stat("circleb."+out[:1], 1)
+			c.Emit(fmt.Sprintf("c07 circleb %s %s %s %s %s", v3Tok(hx, nrm), v3Tok(hx, ctr), hx(rad), v3Tok(hx, r.Origin), v3Tok(hx, r.Direction)), out)
+		}
+	}
+	// --- Cylinder and Capsule
+	for i := 0; i < n; i++ {
+		p1 := rnd3(c)
+		p2 := p1.Add(randAxis3(c).Scale(randPos(c, 0.2, 3)))
+		rad := randPos(c, 0.2, 2)
+		if c.Rng.Intn(2) == 0 {
+			cyl := &model3d.Cylinder{P1: p1, P2: p2, Radius: rad}
+			r := bray3(c, cyl.Min(), cyl.Max())
+			ob := observe3(cyl, r)
+			c.Stat(fmt.Sprintf("cylb.hits.%d", minInt(ob.n1, 4)), 1)
+			c.Emit(fmt.Sprintf("c07 cylb %s %s %s %s %s", v3Tok(hx, p1), v3Tok(hx, p2), hx(rad), v3Tok(hx, r.Origin), v3Tok(hx, r.Direction)), runStr(hx, ob, 3))
+		} else {
+			capsule := &model3d.Capsule{P1: p1, P2: p2, Radius: rad}
+			r := bray3(c, capsule.Min(), capsule.Max())
+			ob := observe3(capsule, r)
+			if tiedScales(ob.ts) {
+				continue
+			}
+			c.Stat(fmt.Sprintf("capb.hits.%d", minInt(ob.n1, 4)), 1)
+			c.Emit(fmt.Sprintf("c07 capb %s %s %s %s %s", v3Tok(hx, p1), v3Tok(hx, p2), hx(rad), v3Tok(hx, r.Origin), v3Tok(hx, r.Direction)),
+				runStr(hx, ob, 3)+" I "+b01(capsule.Contains(r.Origin)))
+		}
+	}
+}
+
+func tiedScales(ts []float64) bool {
+	s := sortedCopy(ts)
+	for i := 1; i < len(s); i++ {
+		if s[i] == s[i-1] {
+			return true
+		}
+	}
+	return false
+}
+
+// ---------------------------------------------------------------- ball / segment / rect / triangle queries
+
+func ratOf(x float64) *big.Rat { return new(big.Rat).SetFloat64(x) }
+
+func runBall(c *hlib.Ctx, n int) {
+	// Triangle.SphereCollision on dyadic data against the exact squared distance (Lean spec)
+	for i := 0; i < 2*n; i++ {
+		var t *model3d.Triangle
+		if c.Rng.Intn(2) == 0 {
+			t = ptri(c)
+		} else {
+			t = &model3d.Triangle{dy3(c), dy3(c), dy3(c)}
+			if t.Area() == 0 {
+				continue
+			}
+		}
+		ctr := dy3(c)
+		r := float64(1+c.Rng.Intn(24)) / 8
+		if c.Rng.Intn(3) == 0 {
+			// a radius next to the true distance (just below / just above), still dyadic
+			dist := t.Dist(ctr)
+			r = math.Floor(dist*64)/64 + float64(c.Rng.Intn(3)-1)/64
+			if r <= 0 {
+				r = 1.0 / 64
+			}
+		}
+		got := t.SphereCollision(ctr, r)
+		c.Stat("ballx."+b01(got), 1)
+		c.Emit(fmt.Sprintf("c07 ballx %s %s %s", triTokens(rs, t), v3Tok(rs, ctr), rs(r)), b01(got))
+	}
+	// 2-D Segment.CircleCollision
+	for i := 0; i < n; i++ {
+		s := &model2d.Segment{dy2(c), dy2(c)}
+		if s[0] == s[1] {
+			continue
+		}
+		ctr := dy2(c)
+		r := float64(1+c.Rng.Intn(24)) / 8
+		if c.Rng.Intn(3) == 0 {
+			dist := s.Dist(ctr)
+			r = math.Floor(dist*64)/64 + float64(c.Rng.Intn(3)-1)/64
+			if r <= 0 {
+				r = 1.0 / 64
+			}
+		}
+		got := s.CircleCollision(ctr, r)
+		c.Stat("circx."+b01(got), 1)
+		c.Emit(fmt.Sprintf("c07 circx %s %s %s %s", v2Tok(rs, s[0]), v2Tok(rs, s[1]), v2Tok(rs, ctr), rs(r)), b01(got))
+	}
+	// Triangle.SegmentCollision (exact family)
+	for i := 0; i < n; i++ {
+		t := ptri(c)
+		d := pdir3(c)
+		u, v := float64(c.Rng.Intn(5)-1)/4, float64(c.Rng.Intn(5)-1)/4
+		if c.Rng.Intn(2) == 0 {
+			u, v = float64(1+c.Rng.Intn(3))/8, float64(1+c.Rng.Intn(3))/8
+		}
+		tgt := t[0].Add(t[1].Sub(t[0]).Scale(u)).Add(t[2].Sub(t[0]).Scale(v))
+		s0 := originToward(c, tgt, d)
+		s1 := s0.Add(d)
+		got := t.SegmentCollision(model3d.Segment{s0, s1})
+		c.Stat("segx."+b01(got), 1)
+		c.Emit(fmt.Sprintf("c07 segx %s %s %s", triTokens(rs, t), v3Tok(rs, s0), v3Tok(rs, s1)), b01(got))
+	}
+	runSoupQueries(c, n)
+}
